@@ -182,6 +182,32 @@ theorem minimiser (env : Env ℝ) (s : State ℝ) (hsvd : SVDAt env s) (heps : 0
   rw [hx]
   exact ⟨hne, fun x' => pythagoras _ _ _ x' hne⟩
 
+/-! ### The same facts with explicit dimensions (used by C05, where the solver state is produced by a loop) -/
+
+/-- the exact least-squares solution `(JᵀJ)⁻¹JᵀY` of a problem given as matrices -/
+noncomputable def lsSolution {n e : Nat} (J : Matrix (Fin n) (Fin e) ℝ) (Y : Fin n → ℝ) : Fin e → ℝ :=
+  (Jᵀ * J)⁻¹ *ᵥ (Jᵀ *ᵥ Y)
+
+theorem lsSolution_normal_equations {n e : Nat} (J : Matrix (Fin n) (Fin e) ℝ) (Y : Fin n → ℝ)
+    (hfull : IsUnit (Jᵀ * J).det) : Jᵀ *ᵥ (J *ᵥ lsSolution J Y - Y) = 0 := by
+  rw [Matrix.mulVec_sub, Matrix.mulVec_mulVec, lsSolution, Matrix.mulVec_mulVec, Matrix.mul_nonsing_inv _ hfull,
+    Matrix.one_mulVec, sub_self]
+
+/-- uniqueness: for a full-rank problem every solution of the normal equations is `lsSolution` -/
+theorem lsSolution_unique {n e : Nat} (J : Matrix (Fin n) (Fin e) ℝ) (Y : Fin n → ℝ) (hfull : IsUnit (Jᵀ * J).det)
+    (z : Fin e → ℝ) (hz : Jᵀ *ᵥ (J *ᵥ z - Y) = 0) : lsSolution J Y = z := by
+  have h : Jᵀ *ᵥ Y = (Jᵀ * J) *ᵥ z := by
+    rw [Matrix.mulVec_sub, Matrix.mulVec_mulVec, sub_eq_zero] at hz
+    exact hz.symm
+  rw [lsSolution, h, Matrix.mulVec_mulVec, Matrix.nonsing_inv_mul _ hfull, Matrix.one_mulVec]
+
+theorem estimateSVD_spec_dims (env : Env ℝ) (s : State ℝ) {n e : Nat} (hn : s.dataSize = n) (he : s.est = e)
+    (hsvd : SVDAt env s) (heps : 0 ≤ env.eps) (hcut : NoCut env s) :
+    toV e (estimateSVD env s).2 = toM e e s.Ac *ᵥ lsSolution (toM n e s.J) (toV n s.Y) + toV e s.Bc ∧
+    IsUnit ((toM n e s.J)ᵀ * toM n e s.J).det := by
+  subst hn he
+  exact ⟨(estimateSVD_spec env s hsvd heps hcut).1, full_rank_of_noCut env s hsvd heps hcut⟩
+
 /-! ## 2. Cholesky path = SVD path -/
 
 theorem cholesky_eq_svd (env : Env ℝ) (s : State ℝ) (hsvd : SVDAt env s) (hldlt : LDLTContract env)
